@@ -13,7 +13,7 @@ NAME = "lower_method_gate"
 ENGINE = "verus"
 PROPERTIES = {"C13": "methods whose attrs are disabled for the backend are skipped by lowering (absent from the backend's HIR), the others go through the gate",
               "C05": "method-level gate: Ok only if self, every non-write parameter and the return type are accepted; DiplomatWrite only as last parameter",
-              "C06": "lower_method copies the AST's abi_name (the exported symbol) into the HIR method unchanged (through lower_ident)",
+              "C06": "lower_method / lower_opaque copy the AST's abi_name / dtor_abi_name (the exported symbols) into the HIR unchanged (through lower_ident; OpaqueDef::new keeps its arguments apart)",
               "C15": "lower_method / lower_many_params / lower_param are panic-free"}
 F = "core/src/hir/lowering.rs"
 METHODS = "core/src/ast/methods.rs"
@@ -63,11 +63,12 @@ impl OutStructDef {
         ensures r.fields == fields, r.methods == methods, r.attrs == attrs
     { Self { docs, name, fields, methods, attrs, lifetimes, special_method_presence } }
 }
-pub enum TypeDef<'a> { Struct(&'a StructDef), OutStruct(&'a OutStructDef) }
+pub enum TypeDef<'a> { Struct(&'a StructDef), OutStruct(&'a OutStructDef), Opaque(&'a OpaqueDef) }
 impl<'a> TypeDef<'a> {
     // `TypeDef::from(&def)` (From impls): abstract
     #[verifier::external_body] pub fn from_struct(d: &'a StructDef) -> TypeDef<'a> { unimplemented!() }
     #[verifier::external_body] pub fn from_out_struct(d: &'a OutStructDef) -> TypeDef<'a> { unimplemented!() }
+    #[verifier::external_body] pub fn from_opaque(d: &'a OpaqueDef) -> TypeDef<'a> { unimplemented!() }
 }
 impl SpecialMethodPresence { #[verifier::external_body] pub fn default() -> SpecialMethodPresence { unimplemented!() } }
 #[derive(Copy, Clone)] pub enum SymbolId { TypeId(TypeId), TraitId(TraitId) }
@@ -155,6 +156,11 @@ LS_CONTRACT = f"""        requires item.id is TypeId, // lower_all_structs hands
             // methods on zero-sized structs are rejected
             res.is_ok() && !old(self).attr_validator.disabled_spec(item.item.attrs, item.ty_parent_attrs) && item.item.fields@.len() == 0
                 ==> item.item.methods@.len() == 0,
+{G.FRAME}"""
+LO_CONTRACT = f"""        requires item.id is TypeId,
+        ensures {CANARY}
+            // the destructor symbol computed on the AST side (unit opaque_dtor) and the type name reach the HIR unchanged (no mix-up of the two identifiers)
+            res.is_ok() ==> res.unwrap().dtor_abi_name == spec_lower_ident(item.item.dtor_abi_name) && res.unwrap().name == spec_lower_ident(item.item.name),
 {G.FRAME}"""
 LOS_CONTRACT = f"""        requires item.id is TypeId,
         ensures {CANARY}
@@ -343,8 +349,12 @@ def build(tier):
     hand = "    pub struct Struct { pub fields: Vec<(Ident, TypeName)>, pub lifetimes: LifetimeEnv, pub name: Ident }\n"
     if hand not in c0:
         raise Undecided("prelude-mismatch", "hand-declared ast::Struct not found in the prelude")
-    vf.add(c0.replace(hand, ""))
+    hand2 = "    pub struct OpaqueType { pub lifetimes: LifetimeEnv }\n"
+    if hand2 not in c0:
+        raise Undecided("prelude-mismatch", "hand-declared ast::OpaqueType not found in the prelude")
+    vf.add(c0.replace(hand, "").replace(hand2, ""))
     vhelp.typedef(vf, Src("core/src/ast/structs.rs"), "Struct", "struct")
+    vhelp.typedef(vf, Src("core/src/ast/opaque.rs"), "OpaqueType", "struct")
     vhelp.typedef(vf, ms, "SelfParam", "struct")
     vhelp.typedef(vf, ms, "Param", "struct")
     vf.add("    #[verifier::external_body] pub struct Docs { x: u8 }\n    impl Clone for Docs { #[verifier::external_body] fn clone(&self) -> Self { unimplemented!() } }\n"
@@ -458,16 +468,33 @@ def build(tier):
         p.sub("E12", r"item: ItemAndInfo<'ast, ast::Struct>", "item: ItemAndInfo<'ast, ast::Struct>", count=1)
         G.common_body_edits(p)
         vf.add_piece(p, expected=fn)
+    # ---- lower_opaque + OpaqueDef::new
+    p = Piece(src, src.item("impl LoweringContext<'ast>::lower_opaque", "fn"))
+    p.contract(LO_CONTRACT, ret_name="res")
+    p.sub("E6", r"item\.id\.try_into\(\)\?", "__symbol_to_type_id(item.id)?", count=1, why="TryFrom<SymbolId> for TypeId abstracted")
+    p.sub("E12", r"AttributeContext::Type\(TypeDef::from\(&def\)\)", "AttributeContext::Type(TypeDef::from_opaque(&def))", count=1, why="From impl selected by hand")
+    p.sub("E7", r"&ast_opaque\.methods\[\.\.\]", "ast_opaque.methods.as_slice()", count=1, why="`&v[..]` spelled `v.as_slice()`")
+    G.common_body_edits(p)
+    vf.add_piece(p, expected="lower_opaque")
+    vf.add("}\n")
+    defs = Src("core/src/hir/defs.rs")
+    vhelp.typedef(vf, defs, "OpaqueDef", "struct")
+    vf.add("impl OpaqueDef {\n")
+    p = Piece(defs, defs.item("impl OpaqueDef::new", "fn"))
+    p.sub("E1", r"pub\(super\)", "pub", count=1)
+    p.contract(f"""        ensures {CANARY}
+            r.name == name, r.dtor_abi_name == dtor_abi_name, r.methods == methods, r.attrs == attrs,""", ret_name="r")
+    vf.add_piece(p, expected="new")
     vf.add("}\n")
     vf.expected += ["lemma_write_only_last"]
     vf.add(vhelp.FOOTER)
     return vf
 
 
-CANARY_FUNCTIONS = ["lower_param", "lower_many_params", "lower_method", "lower_all_methods", "lower_struct", "lower_out_struct"]
+CANARY_FUNCTIONS = ["lower_param", "lower_many_params", "lower_method", "lower_all_methods", "lower_struct", "lower_out_struct", "lower_opaque", "new"]
 ASSUMPTIONS = list(G.ASSUMPTIONS) + [
     "lower_type / lower_self_param / lower_return_type are abstract in this unit with the contracts proved in unit lower_type_gate (same contract text constants)",
     "lower_ident (strck identifier validation) and SelfParamLifetimeLowerer::new abstract: may fail, and then push an error",
     "<[T]>::split_last assume_specification; derived PartialEq on TypeName structural",
 ]
-UNVERIFIED = {"C13": ["Attrs::from_ast (how disable is computed from the cfg: syn Meta dispatch)"], "C05": ["lower_opaque / lower_enum / lower_trait", "validate / validate_ty_in_method"], "C15": [], "C06": ["lower_opaque copying dtor_abi_name (read: same lower_ident call)"]}
+UNVERIFIED = {"C13": ["Attrs::from_ast (how disable is computed from the cfg: syn Meta dispatch)"], "C05": ["lower_opaque / lower_enum / lower_trait", "validate / validate_ty_in_method"], "C15": [], "C06": []}
